@@ -66,6 +66,16 @@ SCOPES = {
 MODEL = dict(NFiles=2, SkipChoices={fs(), fs(1), fs(2)}, SuffixChoices={False, True}, MaxRaise=2, AllowDie=True)
 
 
+def work_dir():
+    """Scratch directory for the replays.  A tmpfs is preferred: every replay runs the real os.fsync, which costs
+    ~100 ms per file on the sandbox disk and nothing on tmpfs; no verdict depends on durability (death is os._exit)."""
+    import tempfile
+
+    if os.path.isdir("/dev/shm") and os.access("/dev/shm", os.W_OK) and not os.environ.get("VF_SCRATCH"):
+        return tempfile.mkdtemp(prefix="vf-c26-", dir="/dev/shm")
+    return scratch("c26")
+
+
 def _replay(case):
     try:
         return faultfs.replay_plan(case, os.environ["VF_C26_SCRATCH"], _LINTER)
@@ -78,10 +88,17 @@ def plan_str(plan):
 
 
 def signature(clause, case, out):
+    """Root-cause class: was a rename failure followed, for the same file, by a fault in shutil.move's fallback copy?"""
     plan = case["plan"]
+    breaker = ""
+    for k, (i, op, what) in enumerate(plan):
+        if op == "rename" and what == "raise":
+            nxt = [o for j, o, _w in plan[k + 1:] if j == i]
+            if nxt:
+                breaker = nxt[0]
     return {"clause": clause, "level": case["level"], "suffix": case["suffix"],
             "fallback": any(op == "rename" and what == "raise" for _i, op, what in plan),
-            "second": plan[1][1] if len(plan) > 1 else "", "faults": plan_str(plan)}
+            "breaker": breaker, "faults": plan_str(plan)}
 
 
 def cases_from(records, nfiles, levels, tag):
@@ -273,7 +290,7 @@ def strace_run(rep, base, suffix: bool, k: int):
 def run(tier: str, seed: int) -> int:
     global _LINTER
     rep = Report(PROP, tier, seed, "model_checking")
-    base = scratch("c26")
+    base = work_dir()
     os.environ["VF_C26_SCRATCH"] = base
     try:
         # 1. the model: with a rename that simply fails (os.replace) the contract holds in every state
@@ -291,6 +308,11 @@ def run(tier: str, seed: int) -> int:
 
         progress_bar_configuration.disable_progress_bar = True
         _LINTER = sq.linter(sq.config("ansi", "raw", rules="LT01"))
+        warm = os.path.join(base, "warm")                 # children are forked: let them inherit warm caches
+        os.makedirs(warm)
+        faultfs.materialise(warm, 2, [])
+        _LINTER.lint_paths((warm,), fix=True, apply_fixes=False)
+        shutil.rmtree(warm)
         nplans, obs_traces, by_id = 0, [], {}
         only_levels = [x for x in os.environ.get("VF_C26_LEVELS", "").split(",") if x]    # development aid
         for k, (consts, what, levels) in enumerate(SCOPES[tier]):
@@ -354,7 +376,7 @@ def replay(path, tier, seed):
     data = json.load(open(path))
     case = data["case"]
     rep = Report(PROP, tier, seed, "model_checking")
-    base = scratch("c26")
+    base = work_dir()
     os.environ["VF_C26_SCRATCH"] = base
     try:
         if case["kind"] == "plan":
